@@ -207,3 +207,23 @@ Section Server.
   Definition requests_of (es : list sevent) : list request :=
     flat_map (fun e => match e with SRequest r => [r] | _ => [] end) es.
 End Server.
+
+(* the callback installed by the correspondence harness (harness/C18_driver.cc: demoCallback):
+   "/nf..." => what defaultHttpCallback does (404 Not Found, close); otherwise 200 OK with the path
+   as body, the method in X-Method, the query (when present) in A-Query; "/close" asks for close. *)
+Definition s_nf : list byte := [x2f; x6e; x66].
+Definition s_slash_close : list byte := [x2f; x63; x6c; x6f; x73; x65].
+Definition s_NotFound : list byte := [x4e; x6f; x74; x20; x46; x6f; x75; x6e; x64].
+Definition s_OK : list byte := [x4f; x4b].
+Definition s_XMethod : list byte := [x58; x2d; x4d; x65; x74; x68; x6f; x64].
+Definition s_AQuery : list byte := [x41; x2d; x51; x75; x65; x72; x79].
+Definition method_bytes (m : method) : list byte :=
+  match m with
+  | kGet => s_GET | kPost => s_POST | kHead => s_HEAD | kPut => s_PUT | kDelete => s_DELETE
+  | kInvalid => [x55; x4e; x4b; x4e; x4f; x57; x4e]
+  end.
+Definition demo_callback (r : request) (close : bool) : response :=
+  if bytes_eqb (firstn 3 (q_path r)) s_nf then mkResp 404 s_NotFound true [] []
+  else mkResp 200 s_OK (close || bytes_eqb (q_path r) s_slash_close)
+              ((match q_query r with [] => [] | q => [(s_AQuery, q)] end) ++ [(s_XMethod, method_bytes (q_method r))])
+              (q_path r).
